@@ -1,5 +1,5 @@
 from props import PROPS
-TEXT = {p: dict(level=c["level"] + (" " + c["sync_peer"] if c.get("sync_peer") else ""), ref=c["ref"], note=c["note"], technique=c["technique"]) for p, c in PROPS.items()}
+TEXT = {p: dict(level=c["level"] + "".join(" " + c[k] for k in ("sync_peer", "ask_model", "time_and_queue") if c.get(k)), ref=c["ref"], note=c["note"], technique=c["technique"]) for p, c in PROPS.items()}
 # Properties not claimed by a check, with the reason (kept current as checks are added).
 NOT_YET = {p: "check not built yet in this session; see DESIGN.md section 11 for the order of work" for p in
            ["C%02d" % i for i in range(1, 20)]}
